@@ -21,6 +21,7 @@ from harness import coderprops as P
 PROP = 'C01'
 
 META = dict(
+    claimed=True,
     text='Kernel-checked theorems about the Lean model of the template walk and the decoder primitives (value formula '
          '(raw+ref)/10^scale under 201/202/203/207, missing iff all ones and width>1, unsigned code/flag/associated/skipped '
          'fields, bytes for character fields, labels; frame lemma) for all templates and bit strings, plus model-vs-'
